@@ -28,6 +28,7 @@ for sid in sorted(os.listdir(root)):
                     "result": {0: "silent", 1: "FALSE ALARM", 2: "analysis incomplete"}.get(c.returncode, "?"), "lines": lines[:6]}
     finally:
         subprocess.run(["git", "-C", "/repo", "checkout", "--", "."])
+        subprocess.run(["git", "-C", "/repo", "clean", "-fdq", "--", "optimism"])
     print(sid, out[sid]["result"])
     sys.stdout.flush()
 if not only:
